@@ -14,6 +14,7 @@ import (
 	"sort"
 	"strconv"
 	"strings"
+	"time"
 )
 
 func (w *World) refusedBySwitch(r *Resp, what string) bool {
@@ -96,6 +97,8 @@ func (w *World) opManPush(op Op) *Resp {
 	if needPre && w.root != "" && w.x.p.Prop == "C04" {
 		treePre = scanTree(w.root)
 	}
+	w.m.reqStart = w.now()
+	defer func() { w.m.reqStart = time.Time{} }()
 	r := w.do(reqSpec{method: "PUT", path: "/v2/" + repo + "/manifests/" + ref, query: q.Encode(), hdr: hdr, body: body,
 		unknownLen: op.Len == "unknown", repos: []string{repo}})
 	if r.Panicked || w.quiet || w.faulted(r, repo) {
